@@ -51,6 +51,18 @@ class FakeLog:
     def error(self, msg, *a): self._rec('error', msg, *a)
     def critical(self, msg, *a): self._rec('critical', msg, *a)
     def basicConfig(self, **k): pass
+    # used by app_common.ApplicationBase.app_init_logging
+    class _H:
+        def setFormatter(self, f): pass
+        def setLevel(self, l): pass
+    class _Root:
+        def addHandler(self, h): pass
+        def setLevel(self, l): pass
+    root = _Root()
+    def Formatter(self, *a, **k): return None
+    def getLevelName(self, l): return l
+    def StreamHandler(self, *a): return FakeLog._H()
+    def FileHandler(self, *a): return FakeLog._H()
     def texts(self, level=None):
         out = []
         for l, m in self.records:
@@ -146,3 +158,33 @@ def std_env(ctx, T):
         if 'random' in d and isinstance(d['random'], (types.ModuleType, FakeRandom)): d['random'] = rnd
         if 'randint' in d: d['randint'] = rnd.randint
     return net, log, rnd
+
+
+# --------------------------------------------------------------------------- threading (no real threads)
+class FakeThread:
+    def __init__(self, target=None, args=(), kwargs=None, **kw):
+        self.target = target; self.args = args; self.alive = False; self.daemon = False; self.started = 0
+    def start(self): self.alive = True; self.started += 1
+    def join(self, timeout=None): self.alive = False
+    def is_alive(self): return self.alive
+
+
+class FakeEvent:
+    def __init__(self): self.flag = False
+    def set(self): self.flag = True
+    def clear(self): self.flag = False
+    def is_set(self): return self.flag
+    def wait(self, timeout=None): return self.flag
+
+
+class FakeThreading:
+    """stands in for `threading` in clck_gen: start() only marks the thread alive (the worker body is
+    driven by the harness where needed); Lock stays the real one."""
+    Thread = FakeThread; Event = FakeEvent
+    import threading as _t
+    Lock = _t.Lock
+
+
+class FakeSignal:
+    SIGINT = 2
+    def signal(self, *a): pass
